@@ -96,6 +96,15 @@ def check(case):
                     g3 = gfapy.Gfa(lines, vlevel=1)
                     p = g3.line(pname)
                     lk = p.links
+                    if not first:
+                        # after the placeholder link was replaced: nothing of it is left, and a later path resolves to the stored link
+                        stale = [str(x) for sg in g3.segments for x in sg.dovetails if x.virtual]
+                        if stale:
+                            fail("placeholder-link-left-after-replacement", "%s: %s" % (lines, stale))
+                        g3.add_line("P\tq\t%s\t%s" % (segsp, ov))
+                        lq = g3.line("q").links
+                        if len(lq) != 1 or lq[0].line is not g3._gfa1_links[0] or lq[0].line.virtual:
+                            fail("later-path-does-not-resolve-to-stored-link", str(lines))
                     if len(lk) != 1 or lk[0].line is not g3._gfa1_links[0] or len(g3._gfa1_links) != 1:
                         fail("path-does-not-resolve-to-stored-link:%s:%s" % (direction, "link-first" if first else "path-first"), str(lines))
                     elif lk[0].orient != direction:
